@@ -266,6 +266,43 @@ CLAIMS.update({
         ref='DESIGN.md §5 C17'),
 })
 
+CLAIMS.update({
+    'C15': dict(
+        category='proof',
+        technique='Lean 4 theorems over the pass-by-pass and text-front-end model (every pass keeps Item.line; read_lines numbers lines per file) + planted-fault differential correspondence + direct oracle on exception type, file and line, including the command line',
+        text=('Theorems: every pass of assemble() - resolve_constants, resolve_labels, resolve_register_aliases, transform_compressible, '
+              'transform_pseudo_instructions, resolve_aligns, resolve_immediates and the one-to-one passes - puts out only items carrying the '
+              'Line of an item it was given and raises AssemblerError only with such a Line (lines_preserved); hence an AssemblerError from '
+              'anywhere in the pipeline names the line of a parsed item, with and without compression and through pseudo-instruction '
+              'expansion (error_line_is_source_line), every parsed item carries a Line read_lines produced (assembleText_error_line), and '
+              'every such Line has the path of the file it was read from and its 1-based index in that file\'s splitlines() at any include '
+              'depth (readLines_numbered, assembleText_path_error_numbered). One theorem per listed fault class for the simplest shape: '
+              'encoder ValueError, data misfit, unknown register in a compression predicate, undefined %offset/%position reference (through '
+              'resolve_immediates), failing arithmetic in an immediate or constant, the second definition of a label, the error directive, '
+              'a missing include. Tie and search: 8640 (thorough 86400) seeded cases per run - each class x first/middle/last/random '
+              'position x include depth 0-3 x both modes, faults on instructions, pseudo-instructions, data directives, explicit c.* '
+              'mnemonics and lines a compression rule inspects, escapes unicode_escape rejects - are assembled by the real code; exception '
+              'type, .line.file and .line.number must be the planted line\'s, ~10 % also through the CLI; the Lean model must reply the '
+              'same error location.'),
+        note=TB + ' Wrong operand counts, unknown mnemonics / pack formats, align 0 and include cycles are not among the listed classes and are not planted. For a duplicated label either definition\'s line satisfies the oracle; the model demands the second. The whole-pipeline per-class statement is kept as a Prop; proved per detecting pass.',
+        ref='DESIGN.md §5 C15'),
+    'C16': dict(
+        category='translation_validation',
+        technique='history correspondence of the real assemble() against a history-free Lean model + module-table snapshots + fresh processes under 8 PYTHONHASHSEED values; the Lean theorems (assemble_pure, history_independent) are true by construction and stated as such',
+        text=('Seeded histories of 5-50 assemble() calls in one interpreter (192 per quick run, 1600 thorough) over a pool of valid, failing, '
+              'cross-referencing and same-named programs, both modes, with fresh / absent / reused-and-cleared / equal-content caller '
+              'dictionaries and dirty-dictionary calls as noise: every result (bytes, ordered labels, ordered constants, or error class + '
+              'file + line) must equal every other observation of the same call in any history of any interpreter and the reply of the Lean '
+              'model, which has no history; REGISTERS, INSTRUCTIONS, every *_TYPE_INSTRUCTIONS, PSEUDO_INSTRUCTIONS, '
+              'BASE_OFFSET_INSTRUCTIONS, NUMERIC_SEQUENCE_NAMES, SHORTHAND_PACK_NAMES and KEYWORDS are compared key by key (identity, '
+              'equality, dict order) around every history; the command line is run on 9+ programs under 8 hash seeds and its exit status, '
+              '-o bytes, -l text and -v listing must be identical and equal the in-process result. Why this level: a theorem about the '
+              'model\'s purity is true by construction (a Lean function has no hidden state); what carries weight is that the real '
+              'implementation, run through arbitrary histories, keeps agreeing with that history-free function.'),
+        note='Caller dictionaries are inputs (a populated, uncleared dictionary is a different input; pre-populated label tables are outside the model). Interpreter-level state outside asm.py is exercised, not modelled. Partial: no theorem about the Python interpreter.',
+        ref='DESIGN.md §5 C16'),
+})
+
 PENDING_REASON = 'check not built yet (work in progress; see DESIGN.md section 5 for the plan)'
 
 
